@@ -914,3 +914,15 @@ package eval
 //@     assert [C19,C02] all: rangeindex1 + 1 >= len(objects) && !pe.exposureAnalysisFlag
 //@   before call 15:
 //@     assert [C19,C02] sorted: sortedANPs(pe)
+
+// ---------------------------------------------------------------------------------------------
+// Pods entering the engine (C15, C17): addPod records the pod under its owner key (what deletePod later relies on to know when
+// the last pod of an owner goes) and touches neither another owner's set nor any cached verdict; insertWorkload stores every
+// pod generated for the workload under namespace/name
+// ---------------------------------------------------------------------------------------------
+//@ func (*evalCache).addPod
+//@   requires ec != nil && ec.ownerToPods != nil && p != nil && (forall o string :: {o in ec.ownerToPods} o in ec.ownerToPods ==> ec.ownerToPods[o] != nil)
+//@   modifies ec.ownerToPods[*], map[string]struct{} { m | true }
+//@   ensures [C15] tracked: ownerKey(p) in ec.ownerToPods && ec.ownerToPods[ownerKey(p)] != nil && podName in ec.ownerToPods[ownerKey(p)]
+//@   ensures [C15] others: forall o string :: {o in ec.ownerToPods} (o != ownerKey(p) && old(o in ec.ownerToPods)) ==> (o in ec.ownerToPods && ec.ownerToPods[o] == old(ec.ownerToPods[o]))
+//@   ensures [C15] grown: forall n string :: {n in ec.ownerToPods[ownerKey(p)]} (old(ownerKey(p) in ec.ownerToPods) && old(n in ec.ownerToPods[ownerKey(p)])) ==> n in ec.ownerToPods[ownerKey(p)]
